@@ -52,6 +52,22 @@ impl SpanModel {
     }
 }
 
+
+/// The units of a span *derived* from another (abs, negate, products, conversions), after checking that the value is
+/// coherent as a whole: its sign agrees with its units (a span of zeros is zero, not "positive with nothing in it").
+fn coherent_span(bad: &mut Vec<(String, String, String)>, what: &str, s: &Span) -> MSpan {
+    let m = MSpan::from_jiff(s);
+    let sg = m.u.iter().find(|v| **v != 0).map_or(0, |v| v.signum());
+    if s.signum() as i64 != sg || s.is_zero() != (sg == 0) || s.is_positive() != (sg > 0) || s.is_negative() != (sg < 0) {
+        bad.push((format!("{}/sign-incoherent-with-units", what), format!("signum {} for {:?}", sg, m.u), format!("signum {} zero={} pos={} neg={}", s.signum(), s.is_zero(), s.is_positive(), s.is_negative())));
+    } else if let Ok(copy) = m.to_jiff() {
+        if s.fieldwise() != copy.fieldwise() {
+            bad.push((format!("{}/not-fieldwise-equal-to-a-span-with-the-same-units", what), format!("{:?}", copy), format!("{:?}", s)));
+        }
+    }
+    m
+}
+
 fn try_set(s: Span, unit: usize, v: i64) -> Result<Span, jiff::Error> {
     match unit {
         0 => s.try_nanoseconds(v),
@@ -136,15 +152,15 @@ fn check_span_seq(cx: &mut Ctx, ops: &[(usize, i64)], ks: &[i64]) {
             if span.signum() as i64 != sg || span.is_zero() != (sg == 0) || span.is_positive() != (sg > 0) || span.is_negative() != (sg < 0) {
                 bad.push(("Span::signum/is_*".into(), format!("{}", sg), format!("{} zero={} pos={} neg={}", span.signum(), span.is_zero(), span.is_positive(), span.is_negative())));
             }
-            let neg = MSpan::from_jiff(&span.negate());
+            let neg = coherent_span(&mut bad, "Span::negate", &span.negate());
             if neg != exp.neg() {
                 bad.push(("Span::negate".into(), format!("{:?}", exp.neg().u), format!("{:?}", neg.u)));
             }
-            let neg2 = MSpan::from_jiff(&(-span));
+            let neg2 = coherent_span(&mut bad, "-Span", &(-span));
             if neg2 != exp.neg() {
                 bad.push(("-Span".into(), format!("{:?}", exp.neg().u), format!("{:?}", neg2.u)));
             }
-            let abs = MSpan::from_jiff(&span.abs());
+            let abs = coherent_span(&mut bad, "Span::abs", &span.abs());
             let mut eabs = exp;
             for v in eabs.u.iter_mut() {
                 *v = v.abs();
@@ -202,7 +218,21 @@ fn check_span_seq(cx: &mut Ctx, ops: &[(usize, i64)], ks: &[i64]) {
             }
         }
         cx.eval(1);
-        match guard(|| span.checked_mul(k).ok().map(|s| MSpan::from_jiff(&s))) {
+        match guard(|| {
+            span.checked_mul(k).ok().map(|s| {
+                let mut b = Vec::new();
+                let m = coherent_span(&mut b, "Span::checked_mul", &s);
+                (m, b)
+            })
+        })
+        .map(|o| {
+            o.map(|(m, b)| {
+                for (c, e, g) in b {
+                    cx.violation(&c, case, || e.clone(), || format!("{} (k={})", g, k));
+                }
+                m
+            })
+        }) {
             Err(p) => cx.violation(&format!("Span::checked_mul/panic@{}", p.loc()), case, || format!("{:?}", em), || p.what.clone()),
             Ok(g) => {
                 if g != em {
